@@ -459,6 +459,7 @@ def _color_refine(
     generator: Callable,
     max_iter: int | None = None,
     atom_labels: None | np.ndarray[tuple[int], np.dtype[np.int64]] = None,
+    min_iter: int = 1,
 ) -> np.ndarray[tuple[int], np.dtype[np.int64]]:
     sm_generator = generator(graph, atom_labels=atom_labels)
 
@@ -470,10 +471,12 @@ def _color_refine(
     counter = (
         itertools.count(1, 1) if max_iter is None else range(max_iter + 1)
     )
-    for _ in counter:
+    for n_iter, _ in enumerate(counter, 1):
         atom_hash = next(sm_generator)
         new_n_classes = np.unique(atom_hash).shape[0]
-        if new_n_classes == n_atom_classes:
+        if n_iter < min_iter:
+            n_atom_classes = new_n_classes
+        elif new_n_classes == n_atom_classes:
             break
         elif new_n_classes == n_atoms:
             break
@@ -501,11 +504,14 @@ def color_refine_smg(
     max_iter: int | None = None,
     atom_labels: None | np.ndarray[tuple[int], np.dtype[np.int64]] = None,
 ) -> np.ndarray[tuple[int], np.dtype[np.int64]]:
+    # the bond stereo contribution uses the colors of the previous round:
+    # it needs a second round to see anything but the initial zeros
     return _color_refine(
         graph=graph,
         generator=stereo_morgan_generator,
         max_iter=max_iter,
         atom_labels=atom_labels,
+        min_iter=2 if graph.bond_stereo else 1,
     )
 
 
@@ -531,6 +537,8 @@ def color_refine_scrg(
         generator=stereo_reaction_morgan_generator,
         max_iter=max_iter,
         atom_labels=atom_labels,
+        min_iter=(2 if graph.bond_stereo or graph.bond_stereo_changes
+                  else 1),
     )
 
 
